@@ -2,7 +2,8 @@
 import ast
 
 from ..model import AnalysisError
-from ..lib import FV, decode_new, decode_call, phi_members, is_sym, is_const, is_str, strip_stores, stores_of
+from ..lib import (FV, decode_new, decode_call, phi_members, is_sym, is_const, is_str, strip_stores, stores_of,
+                   find_assign, find_assigns, simple_assigns, local_term)
 from ..cfg import always_raises, walk_stmts
 from ..terms import r_add, r_sub, r_div
 from . import common as cm
@@ -119,15 +120,15 @@ def d2_kmesh(chk, repo, q, count_txt, forward):
     else:
         chk.ob(f"{q}::single-cell::appends", False, "C11.D2", "the single-cell branch must append to all three lists", v.f, br)
     # general branch
-    fr = None
-    for st in walk_stmts(br.orelse):
-        if isinstance(st, ast.Assign) and isinstance(st.targets[0], ast.Name) and st.targets[0].id == "freqs":
-            fr = st
+    fr = find_assign(v, lambda t_, s_: (decode_call(v.ctx, t_) or ("",))[0] in ("spfft.fftfreq", "spfft.rfftfreq"),
+                     list(walk_stmts(br.orelse)))
     gen = {role.get(nm): (s_, t) for nm, s_, t in appends(v, list(walk_stmts(br.orelse)))}
     okg = all(k in gen for k in ("p1", "p2", "n"))
     chk.ob(f"{q}::general::appends", okg, "C11.D2", "the general branch must append to all three lists", v.f, br)
-    if okg:
-        F = v.ev.term(ast.Name(id="freqs", ctx=ast.Load()), at=gen["p1"][0])
+    if okg and fr is None:
+        chk.ob(f"{q}::general::frequencies", False, "C11.D2", "no variable holds the sample frequencies of the axis", v.f, br)
+    if okg and fr is not None:
+        F = local_term(v, fr[1], gen["p1"][0])
         mem = phi_members(v.ctx, F)
         full = v.spec("spfft.fftfreq(C, self.cell[i])", env=dict(env, C=count))
         half = v.spec("spfft.rfftfreq(C, self.cell[i])", env=dict(env, C=count))
@@ -247,14 +248,20 @@ def d3_names(chk, repo):
                "mapping targets get 'k_' forward (the same prefix Mesh.fftn puts on the dims) and lose exactly it backward", f.f, r)
     # new mapping keyed by the new label of the same component
     okz = False
+    nv_name = None
+    for n_ in ast.walk(f.f.node):
+        if isinstance(n_, ast.Call):
+            for k_ in n_.keywords:
+                if k_.arg == "vdims" and isinstance(k_.value, ast.Name):
+                    nv_name = k_.value.id          # the variable handed to the constructor as the new labels
     for st in f.stmts():
-        if isinstance(st, ast.For) and f.eq(f.term(st.iter, at=st), f.spec("zip(self.vdims, N)", env={
-                "N": f.ev.term(ast.Name(id="new_vdims", ctx=ast.Load()), at=st)})):
+        if nv_name and isinstance(st, ast.For) and f.eq(f.term(st.iter, at=st), f.spec("zip(self.vdims, N)", env={
+                "N": local_term(f, nv_name, st)})):
             okz = True
             for s2 in walk_stmts(st.body):
                 if isinstance(s2, ast.Assign) and isinstance(s2.targets[0], ast.Subscript):
                     idx = f.ev._index(s2.targets[0].slice, f.cfg.node(s2), None)
-                    okz = okz and f.eq(idx, each(f, f.ev.term(ast.Name(id="new_vdims", ctx=ast.Load()), at=st)))
+                    okz = okz and f.eq(idx, each(f, local_term(f, nv_name, st)))
     chk.ob("field.Field._fftn::mapping-keys-follow-labels", okz, "C11.D3",
            "the new mapping must be keyed by the NEW label of the same component (zip(old labels, new labels))", f.f)
 
